@@ -440,8 +440,28 @@ func (fc *fsCtx) ruleList(r *Report, mem, dir *fsImpl) {
 	} else {
 		r.Anchor("R12f", dir.Name+".List")
 	}
-	if f := mem.Methods["List"]; f != nil {
-		r.Func(FuncName(f))
+	if f0 := mem.Methods["List"]; f0 != nil {
+		r.Func(FuncName(f0))
+		// the loop may live in List or in the helper List delegates to (a *Locked body)
+		f := f0
+		hasAppend := func(g *ssa.Function) bool {
+			found := false
+			p.instrs(g, func(b *ssa.BasicBlock, i int, in ssa.Instruction) {
+				if c, ok := in.(*ssa.Call); ok {
+					if bi, ok := c.Call.Value.(*ssa.Builtin); ok && bi.Name() == "append" {
+						found = true
+					}
+				}
+			})
+			return found
+		}
+		if !hasAppend(f) {
+			for _, g := range directCallees(p, f0) {
+				if hasAppend(g) {
+					f = g
+				}
+			}
+		}
 		rm := p.Rels(f)
 		n, bad := 0, ""
 		var dirParam string
